@@ -95,7 +95,7 @@ pub fn engine(rep: &mut Report, focus: &str, n: usize, seed: u64, thorough: bool
     let cfg = GenCfg { max_depth: if thorough { 4 } else { 3 }, first_term_bias: focus == "C04", ..GenCfg::default() };
     let mut feats_seen: BTreeSet<&'static str> = BTreeSet::new();
     let mut done = 0usize;
-    while done < n {
+    while done < n && !rep.saturated() {
         // C04: case-insensitive and v-mode patterns are where lead bytes of a match can differ from the pattern's
         let forced = if focus == "C04" && rng.chance(1, 2) {
             let mut f = Flags::random(&mut rng);
@@ -261,7 +261,91 @@ pub fn engine(rep: &mut Report, focus: &str, n: usize, seed: u64, thorough: bool
     if focus == "C13" {
         c13_ascii_sweep(rep);
     }
+    if focus == "C02" || focus == "C03" {
+        look_scope(rep, &mut rng, focus, thorough);
+    }
+    if focus == "C04" {
+        crate::scope::prefix_scope(rep, &mut rng, thorough);
+    }
+    if focus == "C01" {
+        crate::scope::run_spec_probes(rep);
+    }
+    if matches!(focus, "C01" | "C02" | "C03" | "C05") {
+        crate::scope::loop_scope(rep, &mut rng, focus, thorough);
+    }
     rep.notes.push(format!("features seen: {:?}", feats_seen));
+}
+
+/// C02 / C03, small-scope part: capture groups inside (nested) lookarounds, inside an alternation
+/// whose other arm can match after the first arm was abandoned — the shape in which capture
+/// save/restore around a lookaround becomes observable. Every haystack over {a,b,c} up to length 3.
+fn look_scope(rep: &mut Report, rng: &mut Rng, focus: &str, thorough: bool) {
+    let looks = ["(?=", "(?!", "(?<=", "(?<!"];
+    let inner = ["", "(?=", "(?!", "(?<=", "(?<!"];
+    let groups = ["(a)", "(b)", "(a|b)", "(a)?", "(.)"];
+    let t1s = ["", "a", "b"];
+    let t2s = ["", "a", "b", "ac", "."];
+    let t3s = ["ab", "a", "(c)|b", ""];
+    let mut hays: Vec<String> = vec![String::new()];
+    let mut cur = vec![String::new()];
+    for _ in 0..3 {
+        let mut nxt = vec![];
+        for p in &cur {
+            for ch in ["a", "b", "c"] {
+                nxt.push(format!("{}{}", p, ch));
+            }
+        }
+        hays.extend(nxt.iter().cloned());
+        cur = nxt;
+    }
+    for l1 in looks {
+        for g1 in groups {
+            for l2 in inner {
+                for g2 in groups {
+                    for t1 in t1s {
+                        for t2 in t2s {
+                            for t3 in t3s {
+                                for order in 0..2 {
+                                    if rep.saturated() {
+                                        return;
+                                    }
+                                    if !thorough && !rng.chance(1, 6) {
+                                        continue;
+                                    }
+                                    let inn = if l2.is_empty() { g2.to_string() } else { format!("{}{})", l2, g2) };
+                                    let body = if order == 0 { format!("{}{}{}", g1, inn, t1) } else { format!("{}{}{}", inn, g1, t1) };
+                                    let pat = format!("(?:{}{}){}|{})", l1, body, t2, t3);
+                                    let (Ok(Ok(opt)), Ok(Ok(noopt))) = (guarded(|| compile(&pat, "", false)), guarded(|| compile(&pat, "", true))) else {
+                                        rep.count("lookscope:rejected");
+                                        continue;
+                                    };
+                                    rep.count("lookscope:patterns");
+                                    let prog = prog_token(&opt);
+                                    for h in &hays {
+                                        let label = format!("/{}/ on {:?} from 0", pat, h);
+                                        let bt = run_exec(&opt, Exec::Bt, h, 0, 64);
+                                        let pk = run_exec(&opt, Exec::Pk, h, 0, 64);
+                                        let btn = run_exec(&noopt, Exec::Bt, h, 0, 64);
+                                        rep.case(&label, !bt.text.is_empty());
+                                        if bt.text != pk.text {
+                                            rep.violation("impl-vs-impl:C02", format!("backtracking [{}] vs PikeVM [{}]", bt.text, pk.text), label.clone());
+                                        }
+                                        if bt.text != btn.text {
+                                            rep.violation("impl-vs-impl:C03", format!("optimized [{}] vs no_opt [{}]", bt.text, btn.text), label.clone());
+                                        }
+                                        if focus == "C02" && rng.chance(1, 64) {
+                                            rep.tie(format!("runprog bt utf8 {} {} 0", prog, ast::bytes_hex(h.as_bytes())), format!("ok {} {} {}", bt.steps, bt.peak, bt.text).trim_end().to_string());
+                                            rep.tie(format!("runprog pk utf8 {} {} 0", prog, ast::bytes_hex(h.as_bytes())), format!("ok {} {} {}", pk.steps, pk.peak, pk.text).trim_end().to_string());
+                                        }
+                                    }
+                                }
+                            }
+                        }
+                    }
+                }
+            }
+        }
+    }
 }
 
 /// C13, exhaustive part: every pair (a, b) of ASCII bytes, for the case-sensitive and the two
@@ -421,7 +505,7 @@ pub fn c12_classes(rep: &mut Report, n: usize, seed: u64, thorough: bool) {
         let mut strs = vec![];
         ast::class_mentions(&cls, &mut chars, &mut strs);
         let mut probes: Vec<Vec<u32>> = vec![vec![]];
-        let mut cs: Vec<u32> = vec!['a' as u32, 'k' as u32, 'K' as u32, 0x212A, 's' as u32, 0x17F, '0' as u32, '_' as u32, ' ' as u32, 0xE9, 0x1F600, '-' as u32, 'Z' as u32];
+        let mut cs: Vec<u32> = vec!['a' as u32, 'k' as u32, 'K' as u32, 0x212A, 's' as u32, 0x17F, '0' as u32, '_' as u32, ' ' as u32, 0xE9, 0x1F600, '-' as u32, 'Z' as u32, 0x0, 0x1, 0x7F, 0x80, 0xFF, 0x100, 0x7FF, 0x800, 0xD7FF, 0xE000, 0xFFFF, 0x10000, 0x10FFFF];
         for c in chars {
             cs.extend(ast::case_partners(c));
         }
@@ -508,6 +592,29 @@ pub fn compiler_tie(rep: &mut Report, n: usize, seed: u64, thorough: bool) {
     }
 }
 
+/// AST → IR lowering tie: the IR the real parser builds for the pattern text of a generated AST,
+/// next to the AST itself (the Lean `toIR` must reproduce it).
+pub fn lower_tie(rep: &mut Report, n: usize, seed: u64, thorough: bool) {
+    let mut rng = Rng::new(seed);
+    let cfg = GenCfg { max_depth: if thorough { 4 } else { 3 }, ..GenCfg::default() };
+    let mut done = 0;
+    while done < n {
+        let Some(c) = gen_case(&mut rng, &cfg, rep, None) else { continue };
+        let cps: Vec<u32> = c.pat.chars().map(|ch| ch as u32).collect();
+        let fs = c.flags.to_string();
+        let ir0 = regress::verif::dump_ir_canon(cps.iter().copied(), make_flags(&fs, true)).unwrap().replace(' ', "~");
+        rep.tie(format!("lower {} {}", c.flags.to_token(), ast::ast_string(&c.node)), format!("ok {}", ir0));
+        rep.case(&format!("/{}/{}", c.pat, fs), true);
+        done += 1;
+    }
+    for node in crate::scope::loop_family().iter().take(if thorough { usize::MAX } else { 2000 }) {
+        let pat = ast::pattern_string(node, ast::Flags::default());
+        let cps: Vec<u32> = pat.chars().map(|ch| ch as u32).collect();
+        let ir0 = regress::verif::dump_ir_canon(cps.iter().copied(), make_flags("", true)).unwrap().replace(' ', "~");
+        rep.tie(format!("lower - {}", ast::ast_string(node)), format!("ok {}", ir0));
+    }
+}
+
 // ------------------------------------------------------------------ C05 exhaustive small scope
 
 /// All patterns built from a few atoms by nesting quantifiers (every small (min,max,lazy) shape),
@@ -545,8 +652,8 @@ pub fn c05_scope(rep: &mut Report, seed: u64, thorough: bool) {
         out
     };
     let t1 = level(&t0, &mut rng, usize::MAX);
-    let t2 = level(&t1, &mut rng, if thorough { 40000 } else { 4000 });
-    let t3 = level(&t2, &mut rng, if thorough { 300000 } else { 12000 });
+    let t2 = level(&t1, &mut rng, if thorough { 20000 } else { 4000 });
+    let t3 = level(&t2, &mut rng, if thorough { 60000 } else { 12000 });
     let mut hays: Vec<String> = vec![String::new()];
     let mut cur = vec![String::new()];
     for _ in 0..(if thorough { 4 } else { 3 }) {
@@ -562,6 +669,9 @@ pub fn c05_scope(rep: &mut Report, seed: u64, thorough: bool) {
     let budget: u64 = 400_000;
     for (li, lvl) in [&t1, &t2, &t3].iter().enumerate() {
         for body in lvl.iter() {
+            if rep.saturated() {
+                return;
+            }
             for tail in ["d", ""] {
                 // a leading group so that \1 is a valid back-reference
                 let pat = format!("(x)?{}{}", body, tail);
